@@ -20,6 +20,7 @@ func init() {
 			"R3 (who-may-call): storage writes in gcsca occur only in the no-clobber gate (the function that invokes Storage.Exists) and the manifest writer; the manifest writer is reachable only from Finalize; packages rotate and testing/nonprod/localca perform no storage writes of their own. " +
 			"R4 (ESP + slice): manifest.Entries is extended only after the gate returned nil for the object name recorded in the entry. " +
 			"R5 (effects): methods of the mutation type write only receiver fields and make no storage call. " +
+			"R6 (ESP on storage/ops.WriteFile, the write primitive that R1–R4 treat as one event): it returns nil only after Storage.Writer, Write and Close (the commit of the object) all returned nil. " +
 			"Crash points at object granularity are the positions between write events, so R1+R2 give every prefix for every upload order. " +
 			"Not covered: partial writes inside one object, the dirty in-memory manifest after a failed Finalize, verification of the stored chain.",
 		Assumptions: []string{"go/types, go/ssa, VTA call graph", "storage/ops.WriteFile is the only write path to storage besides Client.Writer"},
@@ -252,6 +253,61 @@ func runC11(c *Ctx) {
 				c.S.Check(same, "R4b", load.FuncName(f)+":manifest entry.ObjectPath", c.pos(al.Pos()), "entry records the object name handed to the gate", "manifest entry records an object name other than the one uploaded through the gate")
 			}
 		}
+	}
+
+	// ---- R6 the write primitive reports a failed commit ----
+	// storage/ops.WriteFile is the atomic write event of R1–R4; that abstraction is only right if a
+	// nil result means the object was committed: on an object store Close() is the commit.
+	{
+		const (
+			bWriter uint = iota
+			bWrite
+			bClose
+		)
+		r := &esp.Rule{Name: "C11.R6"}
+		r.Relevant = func(f *ssa.Function) bool { return f.Parent() == wf }
+		nClose := 0
+		r.Match = func(in ssa.Instruction) []esp.Ev {
+			call, ok := in.(ssa.CallInstruction)
+			if !ok || !call.Common().IsInvoke() {
+				return nil
+			}
+			switch {
+			case invokeIs(call, storPkg, "Client", "Writer"):
+				return []esp.Ev{{ID: 0, Name: "Writer", ErrIdx: 1, BoolIdx: -1}}
+			case call.Common().Method.Name() == "Write" && call.Common().Signature().Results().Len() == 2:
+				return []esp.Ev{{ID: 1, Name: "Write", ErrIdx: 1, BoolIdx: -1}}
+			case call.Common().Method.Name() == "Close" && call.Common().Signature().Results().Len() == 1:
+				nClose++
+				return []esp.Ev{{ID: 2, Name: "Close", ErrIdx: 0, BoolIdx: -1}}
+			}
+			return nil
+		}
+		r.Step = func(x *esp.Ctx, s esp.State, ev esp.Ev, ph esp.Phase) (esp.State, string) {
+			bit := []uint{bWriter, bWrite, bClose}[ev.ID]
+			switch ph {
+			case esp.Ok:
+				return s.Set(bit), ""
+			case esp.Fail:
+				return s.Clear(bit), ""
+			}
+			return s, ""
+		}
+		r.AtReturn = func(x *esp.Ctx, s esp.State, rets []esp.Abs) string {
+			if len(rets) == 0 || rets[len(rets)-1] == esp.NonZero {
+				return ""
+			}
+			if !s.Has(bWriter) || !s.Has(bWrite) || !s.Has(bClose) {
+				return "R6: WriteFile may return nil in state " + fmtState([]string{"Writer:ok", "Write:ok", "Close:ok"}, s) + ": a failed write or a failed Close (the commit of the object) is reported as success"
+			}
+			return ""
+		}
+		e := c.engine(r)
+		e.Run(wf, esp.State{})
+		if c.reportEngine(e, "R6", func(v *esp.Violation) string { return "storage/ops.WriteFile:commit reported" }) == 0 {
+			c.S.OK("R6", "storage/ops.WriteFile:commit reported", c.pos(wf.Pos()), fmt.Sprintf("nil only after Writer, Write and Close all succeeded (%d configurations)", e.Configs), true)
+		}
+		c.S.Floor("R6", "Close sites of the write primitive", 1, nClose)
 	}
 
 	// ---- R5 deferred mutation ----
